@@ -372,6 +372,7 @@ func ruleC01(c *Ctx) {
 				c.check(len(appends) == 0, "C01-R2", fname, "signed root: no appends ["+label+"]", pos, "assertion list comes from the verified element only", "assertions appended on top of the verified decode")
 			case d.Prov == "raw" && strings.Contains(label, "unsigned-root"):
 				nUnsigned++
+				headerBeforeMutation(c, "C01-R1", t, fname, label, d)
 				if resetA != nil && resetE != nil {
 					c.ok("C01-R1", fname, "unsigned root: pre-verification lists discarded ["+label+"]", pos, "Assertions and EncryptedAssertions reset to empty after the header decode")
 				} else {
@@ -412,6 +413,34 @@ func ruleC01(c *Ctx) {
 	sideDoors(c, "C01-R6")
 	c.rule("C01-R7", "signatures are checked against the store and clock configured NOW: the validation context is built per call in validationContext() from sp.IDPCertificateStore / sp.Clock (no caching), and every Validate receiver comes from it")
 	ctxWiring(c, "C01-R7")
+}
+
+// headerBeforeMutation: on the unsigned-root path the Response header is decoded from the parsed root before anything
+// is added to that tree (decrypted plaintext is attacker-chosen XML and would otherwise be decoded as header content).
+func headerBeforeMutation(c *Ctx, rule string, t *Terminal, fname, label string, hdr decode) {
+	mut := ""
+	for _, e := range t.St.events {
+		if e.Seq >= hdr.Ev.Seq || e.Kind != EvCall {
+			continue
+		}
+		touches := false
+		for _, a := range e.Args {
+			if hdr.El != nil && a.Key() == hdr.El.Key() {
+				touches = true
+			}
+		}
+		if !touches {
+			continue
+		}
+		if ct := lookupContract(e.Callee); ct != nil && ct.TreeMutator && shortName(e.Callee) != "(*etree.Document).SetRoot" {
+			mut = shortName(e.Callee)
+		}
+		if e.CalleeFn != nil && c.P.inModule(e.CalleeFn) && !moduleTreePure(c.P, e.CalleeFn, map[*ssa.Function]bool{}) {
+			mut = shortFn(e.CalleeFn)
+		}
+	}
+	c.check(mut == "", rule, fname, "unsigned root: header decoded before the tree is modified ["+label+"]", c.P.InstrPos(hdr.Ev.Instr), "decode precedes decryptAssertions / any mutation of the root",
+		"the Response header is decoded after "+mut+" has modified the parsed root: content of decrypted (attacker-encryptable) plaintext can be decoded as Issuer / Status of the Response")
 }
 
 func checkAppend(c *Ctx, t *Terminal, fname, label string, obj Val, ae *Event, hdr decode) {
@@ -537,8 +566,15 @@ func screenRule(c *Ctx, rule string) {
 		n++
 		pos := c.P.InstrPos(t.Instr)
 		var lastRead *Event
+		docs := map[string]int{}
 		for _, e := range t.calls("(*etree.Document).ReadFromBytes") {
 			lastRead = e
+			docs[e.Args[0].Key()]++
+			// each parse attempt fills its own, freshly created document (a failed first attempt must leave nothing behind)
+			cv, isNew := e.Args[0].(*CallV)
+			fresh := isNew && shortName(cv.Callee) == "etree.NewDocument" && docs[e.Args[0].Key()] == 1
+			c.check(fresh, rule, fname, "each parse attempt reads into a fresh document", c.P.InstrPos(e.Instr), "etree.NewDocument() per attempt",
+				"a parse attempt reads into "+ap(e.Args[0])+", a document that is not created for this attempt: tokens of a failed first attempt stay in the tree and the compressed form is not treated like the plain one")
 		}
 		if lastRead == nil {
 			c.bad(rule, fname, "accepting path parses", pos, "accepting path without ReadFromBytes")
@@ -578,8 +614,7 @@ func screenRule(c *Ctx, rule string) {
 		return strings.HasPrefix(s, "(*etree.Document).ReadFrom")
 	}
 	cnt := scanCalls(c.P, c.P.LibFns, readers, func(s callSite) {
-		top := topFn(s.Caller)
-		if shortFn(top) != "parseResponse" {
+		if !c.P.withinOnly(s.Caller, allowNames("parseResponse")) {
 			c.bad(rule+"/who-may-parse", shortFn(s.Caller), "call "+shortName(s.Callee), c.P.InstrPos(s.Instr), "XML is parsed into an etree outside parseResponse (no round-trip screen, no size bound)")
 		} else {
 			c.ok(rule+"/who-may-parse", shortFn(s.Caller), "call "+shortName(s.Callee), c.P.InstrPos(s.Instr), "inside parseResponse")
@@ -597,66 +632,68 @@ func screenRule(c *Ctx, rule string) {
 
 // sideDoors: enumerated producers of Response / Assertion values from bytes.
 func sideDoors(c *Ctx, rule string) {
-	allowed := map[string]string{
-		"xmlUnmarshalElement | interface{}":                                            "generic helper: target classified at its call sites",
-		"DecodeUnverifiedBaseResponse$1 | *types.UnverifiedBaseResponse":                "pre-decode (C20)",
-		"DecodeUnverifiedLogoutResponse$1 | *types.LogoutResponse":                      "pre-decode (C20)",
-		"(*types.EncryptedAssertion).Decrypt | *types.Assertion":                        "exported decrypt helper: caller-side trust (documented), not used by the validators",
+	// raw xml.Unmarshal: only inside the generic element decoder, the two pre-decoders (their own types) and the
+	// exported Decrypt helper — or helpers that only those call
+	type site struct {
+		Within []string
+		Types  map[string]bool
+		Why    string
+	}
+	rawSites := []site{
+		{[]string{"xmlUnmarshalElement"}, nil, "generic helper: target classified at its call sites"},
+		{[]string{"DecodeUnverifiedBaseResponse"}, map[string]bool{"*types.UnverifiedBaseResponse": true}, "pre-decode (C20)"},
+		{[]string{"DecodeUnverifiedLogoutResponse"}, map[string]bool{"*types.LogoutResponse": true}, "pre-decode (C20)"},
+		{[]string{"(*types.EncryptedAssertion).Decrypt"}, map[string]bool{"*types.Assertion": true}, "exported decrypt helper: caller-side trust (documented), not used by the validators"},
+	}
+	targetType := func(s callSite) string {
+		if s.Instr == nil || len(s.Instr.Common().Args) != 2 {
+			return "?"
+		}
+		a := s.Instr.Common().Args[1]
+		if mi, ok := a.(*ssa.MakeInterface); ok {
+			return typeStr(mi.X.Type())
+		}
+		return typeStr(a.Type())
 	}
 	n := 0
 	scanCalls(c.P, c.P.LibFns, func(s string) bool { return s == "encoding/xml.Unmarshal" }, func(s callSite) {
 		n++
-		tt := "?"
-		if len(s.Instr.Common().Args) == 2 {
-			a := s.Instr.Common().Args[1]
-			if mi, ok := a.(*ssa.MakeInterface); ok {
-				tt = typeStr(mi.X.Type())
-			} else {
-				tt = typeStr(a.Type())
+		tt := targetType(s)
+		for _, rs := range rawSites {
+			if c.P.withinOnly(s.Caller, allowNames(rs.Within...)) && (rs.Types == nil || rs.Types[tt]) {
+				c.ok(rule, shortFn(s.Caller), "xml.Unmarshal into "+tt, c.P.InstrPos(s.Instr), rs.Why)
+				return
 			}
 		}
-		k := shortFn(s.Caller) + " | " + tt
-		if why, ok := allowed[k]; ok {
-			c.ok(rule, shortFn(s.Caller), "xml.Unmarshal into "+tt, c.P.InstrPos(s.Instr), why)
-		} else if strings.Contains(tt, "Response") || strings.Contains(tt, "Assertion") || tt == "interface{}" || tt == "any" {
+		if strings.Contains(tt, "Response") || strings.Contains(tt, "Assertion") || strings.Contains(tt, "LogoutRequest") || tt == "interface{}" || tt == "any" {
 			c.bad(rule, shortFn(s.Caller), "xml.Unmarshal into "+tt, c.P.InstrPos(s.Instr), "new producer of "+tt+" values from bytes outside the validated decode paths")
 		} else {
 			c.ok(rule, shortFn(s.Caller), "xml.Unmarshal into "+tt, c.P.InstrPos(s.Instr), "unrelated type")
 		}
 	})
 	c.count(rule+"/unmarshal-sites", n)
-	c.floor(rule+"/unmarshal-sites", 4)
-	// call sites of xmlUnmarshalElement: caller and static target type
-	okCallers := map[string]bool{
-		"(*SAMLServiceProvider).ValidateEncodedResponse | *types.Response":             true,
-		"(*SAMLServiceProvider).ValidateEncodedResponse$1 | *types.Assertion":          true,
-		"(*SAMLServiceProvider).decryptAssertions$1 | *types.EncryptedAssertion":       true,
-		"(*SAMLServiceProvider).ValidateEncodedLogoutResponsePOST | *types.LogoutResponse": true,
-		"(*SAMLServiceProvider).ValidateEncodedLogoutRequestPOST | *saml2.LogoutRequest":   true,
+	c.floor(rule+"/unmarshal-sites", 3)
+	// element decodes: inside a validator (its provenance is then decided by R1/R2 / C10 on the kernel paths)
+	elemSites := []site{
+		{[]string{"(*SAMLServiceProvider).ValidateEncodedResponse"}, map[string]bool{"*types.Response": true, "*types.Assertion": true}, ""},
+		{[]string{"(*SAMLServiceProvider).decryptAssertions"}, map[string]bool{"*types.EncryptedAssertion": true}, ""},
+		{[]string{"(*SAMLServiceProvider).ValidateEncodedLogoutResponsePOST"}, map[string]bool{"*types.LogoutResponse": true}, ""},
+		{[]string{"(*SAMLServiceProvider).ValidateEncodedLogoutRequestPOST"}, map[string]bool{"*saml2.LogoutRequest": true}, ""},
 	}
 	m := 0
 	scanCalls(c.P, c.P.LibFns, func(s string) bool { return shortName(s) == "xmlUnmarshalElement" }, func(s callSite) {
 		m++
-		tt := "?"
-		if s.Instr != nil && len(s.Instr.Common().Args) == 2 {
-			if mi, ok := s.Instr.Common().Args[1].(*ssa.MakeInterface); ok {
-				tt = typeStr(mi.X.Type())
+		tt := targetType(s)
+		for _, es := range elemSites {
+			if c.P.withinOnly(s.Caller, allowNames(es.Within...)) && es.Types[tt] {
+				c.ok(rule, shortFn(s.Caller), "xmlUnmarshalElement into "+tt, c.P.InstrPos(s.Instr), "decode site inside "+es.Within[0]+" (its provenance is checked on the kernel paths)")
+				return
 			}
 		}
-		k := shortFn(s.Caller) + " | " + tt
-		// closures are keyed by their parent + $n; accept any closure of the listed parents
-		base := k
-		if i := strings.Index(shortFn(s.Caller), "$"); i >= 0 {
-			base = shortFn(s.Caller)[:i] + "$1 | " + tt
-		}
-		if okCallers[k] || okCallers[base] {
-			c.ok(rule, shortFn(s.Caller), "xmlUnmarshalElement into "+tt, c.P.InstrPos(s.Instr), "enumerated decode site (its provenance is checked by R1/R2 or C10)")
-		} else {
-			c.bad(rule, shortFn(s.Caller), "xmlUnmarshalElement into "+tt, c.P.InstrPos(s.Instr), "new decode site outside the analysed validators")
-		}
+		c.bad(rule, shortFn(s.Caller), "xmlUnmarshalElement into "+tt, c.P.InstrPos(s.Instr), "new decode site outside the analysed validators")
 	})
 	c.count(rule+"/element-decode-sites", m)
-	c.floor(rule+"/element-decode-sites", 6)
+	c.floor(rule+"/element-decode-sites", 4)
 
 	// RetrieveAssertionInfo sources
 	ri := c.kernel("(*SAMLServiceProvider).RetrieveAssertionInfo", retrieveInline...)
@@ -714,7 +751,7 @@ func ctxWiring(c *Ctx, rule string) {
 		return s == "dsig.NewDefaultValidationContext"
 	}
 	n := scanCalls(c.P, c.P.LibFns, isCtor, func(s callSite) {
-		if shortFn(s.Caller) == "(*SAMLServiceProvider).validationContext" {
+		if c.P.withinOnly(s.Caller, allowNames("(*SAMLServiceProvider).validationContext")) {
 			c.ok(rule+"/who-may-construct", shortFn(s.Caller), "call "+shortName(s.Callee), c.P.InstrPos(s.Instr), "inside validationContext()")
 		} else {
 			c.bad(rule+"/who-may-construct", shortFn(s.Caller), "call "+shortName(s.Callee), c.P.InstrPos(s.Instr), "a signature validation context is built outside validationContext(): store / clock wiring is not guaranteed")
@@ -814,8 +851,11 @@ func ruleC04(c *Ctx) {
 				for _, ff := range flagFields {
 					if fname == ff.Field && c.P.Named(ff.Type) != nil && types.Identical(owner, c.P.Named(ff.Type)) {
 						n++
-						top := shortFn(topFn(f))
-						c.check(allowedTop[top], "C04-R1", shortFn(f), "store "+ff.Type+"."+ff.Field, c.P.InstrPos(st), "writer is a validator", "trust indicator written outside the validators: "+shortFn(f))
+						var tops []string
+						for k := range allowedTop {
+							tops = append(tops, k)
+						}
+						c.check(c.P.withinOnly(f, allowNames(tops...)), "C04-R1", shortFn(f), "store "+ff.Type+"."+ff.Field, c.P.InstrPos(st), "writer is a validator", "trust indicator written outside the validators: "+shortFn(f))
 					}
 				}
 			}
